@@ -30,3 +30,8 @@ pub open spec fn only_removed(a: DbView, b: DbView) -> bool {
     forall|k: AKey| #[trigger] b.contains_key(k) ==> a.contains_key(k) && b[k] == a[k]
 }
 pub open spec fn build_err(e: Error) -> bool { e is Heed || e is Io || e == Error::BuildCancelled || e == Error::DatabaseFull }
+/// every item leaf of the index has the same encoded length (they share the declared dimension; cf. fix of F6)
+pub open spec fn leaves_same_len(v: DbView, i: u16) -> bool {
+    forall|a: u32, b: u32, x: NodeBytes, y: NodeBytes| #![trigger x.aval(), y.aval(), ikey(i, a), ikey(i, b)]
+        v.contains_key(ikey(i, a)) && v.contains_key(ikey(i, b)) && x.aval() == v[ikey(i, a)] && y.aval() == v[ikey(i, b)] ==> x.blen() == y.blen()
+}
